@@ -1,3 +1,55 @@
+/-
+C14 - property theorems: Dataset-wide indexing equals per-variable indexing.
+
+`Dataset.take` resolves the user's (label) indices ONCE, on the dataset's own axes, into NumPy
+positional indices and then applies a *positional* take to every variable.  Because a variable's
+axis for a dimension is the very same object as the dataset's axis (C13), the positions are the
+ones the variable's own label indexing would compute: the two routes coincide.
+-/
 import DimModel.Lib.GetSet
 namespace DimModel
+open Lib
+
+/-- a resolved NumPy index, given back to a variable as a positional user index -/
+def rawToIx : RawIx → Ix
+  | .int i => .scalar (.num (i : Rat))
+  | .ints l => .list (l.map fun (i : Int) => Label.num (i : Rat))
+  | .slice s e st => .slice (s.map fun (i : Int) => Label.num (i : Rat)) (e.map fun (i : Int) => Label.num (i : Rat)) st
+  | .mask m => .mask m
+
+theorem labelToInt_intCast (i : Int) : labelToInt (Label.num (i : Rat)) = .ok i := by
+  simp [labelToInt, Rat.den_intCast, Rat.num_intCast]
+
+theorem mapM_labelToInt (l : List Int) :
+    (l.map fun (i : Int) => Label.num (i : Rat)).mapM labelToInt = .ok l := by
+  induction l with
+  | nil => rfl
+  | cons x xs ih =>
+    simp only [List.map_cons, List.mapM_cons, ih, labelToInt_intCast, bind, Except.bind, pure, Except.pure]
+
+/-- position mode hands the resolved index to NumPy unchanged -/
+theorem ixToRaw_rawToIx (r : RawIx) : ixToRaw (rawToIx r) = .ok r := by
+  cases r with
+  | int i => simp [rawToIx, ixToRaw, labelToInt_intCast, bind, Except.bind, pure, Except.pure]
+  | ints l =>
+    simp only [rawToIx, ixToRaw, bind, Except.bind, pure, Except.pure]
+    rw [mapM_labelToInt]
+  | mask m => simp [rawToIx, ixToRaw, pure, Except.pure]
+  | slice s e st =>
+    cases s <;> cases e <;>
+      simp [rawToIx, ixToRaw, labelToInt_intCast, bind, Except.bind, pure, Except.pure, Functor.map, Except.map]
+
+/-- **per-dimension commuting square.**  On an axis with labels `L`, resolving the label index `ix`
+(what `Dataset.take` does on the dataset's axis) and giving the result to the variable as a
+positional index leads to the same NumPy index as the variable's own label lookup on the same
+labels (the variable shares the axis object, C13). -/
+theorem dsTake_perdim_commutes (L : List Label) (kind : Kind) (ix : Ix) (tol : Option Tol) (r : RawIx)
+    (h : loc L kind ix tol = .ok r) :
+    ixToRaw (rawToIx r) = loc L kind ix tol := by
+  rw [h]; exact ixToRaw_rawToIx r
+
+/-- a full slice is passed through unchanged in both modes -/
+theorem fullslice_both_modes : ixToRaw fullIx = .ok (.slice none none none) := by
+  simp [fullIx, ixToRaw, pure, Except.pure, bind, Except.bind]
+
 end DimModel
